@@ -138,3 +138,65 @@ func chainTest(o *symex.Obligation, c Candidate) string {
 	b.WriteString("\tfmt.Printf(\"VERIF_REPLAY reproduced=%v input=%q output=%q err=%v precondition=%v left=%q\\n\", pre && left != \"\", text, out, err, pre, left)\n}\n")
 	return b.String()
 }
+
+// mergeTest replays a counterexample of a merge obligation: both rules are built from the
+// model, the receiver is merged with the argument on the real code, and the fact of the
+// model is evaluated before and after with an evaluator written from the denotation line.
+func mergeTest(pkgName string, o *symex.Obligation, c Candidate) string {
+	typ := strings.TrimPrefix(o.Meta["type"], "*")
+	if i := strings.LastIndex(typ, "."); i >= 0 {
+		typ = typ[i+1:]
+	}
+	var b strings.Builder
+	fmt.Fprintf(&b, "package %s\n\nimport (\n\t\"fmt\"\n\t\"reflect\"\n\t\"slices\"\n\t\"testing\"\n)\n\nvar _ = reflect.DeepEqual\nvar _ = slices.Contains[[]string]\n\n", pkgName)
+	b.WriteString("func TestVerifReplay(t *testing.T) {\n")
+	fmt.Fprintf(&b, "\tr, o := &%s{}, &%s{}\n", typ, typ)
+	var names []string
+	for n := range c.Values {
+		names = append(names, n)
+	}
+	sort.Strings(names)
+	fact := map[string]interface{}{}
+	for _, n := range names {
+		if strings.HasPrefix(n, "fact.") {
+			fact[strings.TrimPrefix(n, "fact.")] = c.Values[n]
+			continue
+		}
+		fmt.Fprintf(&b, "\t%s = %s\n", n, goLit(c.Values[n]))
+	}
+	// expresses(x): from the denotation line
+	den := o.Meta["denot"]
+	part := func(kind string) []string {
+		i := strings.Index(den, kind+"(")
+		if i < 0 {
+			return nil
+		}
+		rest := den[i+len(kind)+1:]
+		rest = rest[:strings.Index(rest, ")")]
+		var out []string
+		for _, f := range strings.Split(rest, ",") {
+			if f = strings.TrimSpace(f); f != "" {
+				out = append(out, f)
+			}
+		}
+		return out
+	}
+	fmt.Fprintf(&b, "\texpresses := func(x *%s) bool {\n\t\tok := true\n", typ)
+	for _, f := range append(part("qualifier"), part("subject")...) {
+		fmt.Fprintf(&b, "\t\tok = ok && x.%s == %s\n", f, goLit(fact[f]))
+	}
+	for _, f := range part("perms") {
+		fs := strings.Fields(f)
+		if len(fs) > 1 && fs[1] == "all" {
+			fmt.Fprintf(&b, "\t\tok = ok && (len(x.%s) == 0 || slices.Contains(x.%s, %s))\n", fs[0], fs[0], goLit(fact[fs[0]]))
+		} else {
+			fmt.Fprintf(&b, "\t\tok = ok && slices.Contains(x.%s, %s)\n", fs[0], goLit(fact[fs[0]]))
+		}
+	}
+	b.WriteString("\t\treturn ok\n\t}\n")
+	b.WriteString("\tbefore := expresses(r) || expresses(o)\n\tr0 := *r\n\tr0.Base = Base{}\n")
+	b.WriteString("\tmerged := r.Merge(o)\n\tafter := expresses(r)\n\tr1 := *r\n\tr1.Base = Base{}\n")
+	b.WriteString("\tbad := (merged && after != before) || (!merged && !reflect.DeepEqual(r0, r1))\n")
+	b.WriteString("\tfmt.Printf(\"VERIF_REPLAY reproduced=%v merged=%v fact-before=%v fact-after=%v receiver-before=%+v receiver-after=%+v\\n\", bad, merged, before, after, r0, r1)\n}\n")
+	return b.String()
+}
